@@ -136,7 +136,9 @@ def in_scope(case):
     """inside the quantifier of C13: offset a whole number of milliseconds within +-14 h, instant
     1970..2100"""
     off = case["off"] or 0
-    return off % 1000 == 0 and abs(off) <= 14 * 3600 * M and 0 <= true_instant(case) < T_MAX
+    # "timestamps 1970..2100 at any offset in [-14h, +14h]": the WALL-CLOCK date is 1970 or later, so the UTC instant
+    # may lie up to 14 h before the epoch
+    return off % 1000 == 0 and abs(off) <= 14 * 3600 * M and -14 * 3600 * M <= true_instant(case) < T_MAX and case["loc"] >= 0
 
 
 def dur_value(d):
